@@ -33,6 +33,9 @@ func serveMain(args []string) {
 			persist = args[i]
 		}
 	}
+	// the control protocol owns the real stdout; stray prints of the emulator go to stderr
+	ctlOut := os.Stdout
+	os.Stdout = os.Stderr
 	l := lane.NewNullLane(context.Background())
 	engs := map[int]*redisemu.RedisEmu{}
 	start := func(id, p int, path string) {
@@ -45,7 +48,7 @@ func serveMain(args []string) {
 		engs[id] = eng
 	}
 	start(0, port, persist)
-	out := bufio.NewWriter(os.Stdout)
+	out := bufio.NewWriter(ctlOut)
 	crashDir := ""
 	crashN := 0
 	crashSrc := persist
